@@ -133,8 +133,11 @@ def run_property(prop_id, tier, seed, jobs, only=None):
             agg[k] += summ[k]
         agg["max_depth"] = max(agg["max_depth"], summ["max_depth"])
         for v in summ["violations"]:
-            if len(agg["violations"]) < 200:
+            # keep a bounded number of records PER SIGNATURE, so that a flood of one class cannot hide another
+            n_sig = agg.setdefault("_per_sig", {}).get(v["sig"], 0)
+            if n_sig < 60 and len(agg["violations"]) < 3000:
                 agg["violations"].append(v)
+                agg["_per_sig"][v["sig"]] = n_sig + 1
         if len(agg["samples"]) < 3:
             agg["samples"].extend(summ["samples"][: 3 - len(agg["samples"])])
         for k, n in summ["counters"].items():
